@@ -237,15 +237,47 @@ fn bytes_of(b: &Built) -> Vec<u8> {
 // in-memory callbacks for the raw reader
 // ---------------------------------------------------------------------------
 
+/// Unusual answers of the environment: at call number `.0` of the respective callback only `.1`
+/// bytes are returned although more were asked for and are there (a source that hands the file
+/// out in pieces), or the call fails.
+#[derive(Clone, Copy, Debug, Default)]
+struct Env {
+    new_short: Option<(usize, usize)>,
+    new_fail: Option<usize>,
+    data_short: Option<(usize, usize)>,
+    data_fail: Option<usize>,
+}
+
+impl Env {
+    fn any_new(&self) -> bool {
+        self.new_short.is_some() || self.new_fail.is_some()
+    }
+    fn any_data(&self) -> bool {
+        self.data_short.is_some() || self.data_fail.is_some()
+    }
+}
+
 struct MemNew<'a> {
     bytes: &'a [u8],
     pos: usize,
     seek_base: usize,
+    calls: usize,
+    env: Env,
 }
 
 impl<'a> CallbackNew for MemNew<'a> {
     fn read(&mut self, buffer: &mut [u8]) -> Result<usize, CallbackError> {
-        let n = buffer.len().min(self.bytes.len() - self.pos);
+        let call = self.calls;
+        self.calls += 1;
+        if self.env.new_fail == Some(call) {
+            return Err(CallbackError);
+        }
+        let mut n = buffer.len().min(self.bytes.len() - self.pos);
+        if let Some((k, m)) = self.env.new_short {
+            if k == call {
+                n = n.min(m);
+            }
+        }
         buffer[..n].copy_from_slice(&self.bytes[self.pos..self.pos + n]);
         self.pos += n;
         Ok(n)
@@ -263,15 +295,27 @@ struct MemData<'a> {
     bytes: &'a [u8],
     seek_base: usize,
     buffer: Vec<u8>,
+    calls: usize,
+    env: Env,
 }
 
 impl<'a> CallbackReadData for MemData<'a> {
     fn seek_read(&mut self, start: u32, buffer: &mut [u8]) -> Result<usize, CallbackError> {
+        let call = self.calls;
+        self.calls += 1;
+        if self.env.data_fail == Some(call) {
+            return Err(CallbackError);
+        }
         let off = self.seek_base + start as usize;
         if off > self.bytes.len() {
             return Ok(0);
         }
-        let n = buffer.len().min(self.bytes.len() - off);
+        let mut n = buffer.len().min(self.bytes.len() - off);
+        if let Some((k, m)) = self.env.data_short {
+            if k == call {
+                n = n.min(m);
+            }
+        }
         buffer[..n].copy_from_slice(&self.bytes[off..off + n]);
         Ok(n)
     }
@@ -290,17 +334,24 @@ impl<'a> CallbackReadData for MemData<'a> {
 
 /// Open with the raw reader and traverse everything. Returns the outcome class.
 fn traverse_raw(bytes: &[u8], expect: Option<&Df>) -> Result<String, String> {
-    let mut cb = MemNew { bytes, pos: 0, seek_base: 0 };
+    traverse_raw_env(bytes, expect, Env::default())
+}
+
+/// With an unusual environment: opening may fail (then nothing more is asked); a reader that was
+/// handed out must return exactly what was stored; a data block whose read was disturbed may be
+/// refused, every other block is still returned exactly.
+fn traverse_raw_env(bytes: &[u8], expect: Option<&Df>, env: Env) -> Result<String, String> {
+    let mut cb = MemNew { bytes, pos: 0, seek_base: 0, calls: 0, env };
     let r = match raw::Reader::new(&mut cb) {
         Ok(r) => r,
         Err(e) => {
-            if expect.is_some() {
+            if expect.is_some() && !env.any_new() {
                 return Err(format!("well-formed file rejected: {:?}", e));
             }
             return Ok(format!("rejected:{:?}", e).chars().take(40).collect());
         }
     };
-    let mut dcb = MemData { bytes, seek_base: cb.seek_base, buffer: Vec::new() };
+    let mut dcb = MemData { bytes, seek_base: cb.seek_base, buffer: Vec::new(), calls: 0, env };
     let n = r.num_items();
     let items: Vec<_> = r.items().collect();
     if items.len() != n {
@@ -339,6 +390,10 @@ fn traverse_raw(bytes: &[u8], expect: Option<&Df>) -> Result<String, String> {
     }
     let mut datas = Vec::new();
     for i in 0..r.num_data() {
+        if dcb.calls > 0 && env.any_data() && (env.data_fail.map(|k| k < dcb.calls).unwrap_or(false) || env.data_short.map(|k| k.0 < dcb.calls).unwrap_or(false)) {
+            // the one disturbance has happened
+            dcb.env = Env::default();
+        }
         match r.read_data(&mut dcb, i) {
             Ok(()) => datas.push(Some(dcb.buffer.clone())),
             Err(_) => datas.push(None),
@@ -351,8 +406,23 @@ fn traverse_raw(bytes: &[u8], expect: Option<&Df>) -> Result<String, String> {
             return Err(format!("items differ: got {:?}, stored {:?}", got_items, want_items));
         }
         let want_data: Vec<Option<Vec<u8>>> = df.data.iter().map(|d| Some(d.clone())).collect();
-        if want_data != datas {
-            return Err("data blocks differ from what was stored".into());
+        if !env.any_data() {
+            if want_data != datas {
+                return Err("data blocks differ from what was stored".into());
+            }
+        } else {
+            // at most the one block whose read was disturbed may be refused; nothing may be wrong
+            if want_data.len() != datas.len() || datas.iter().filter(|d| d.is_none()).count() > 1 || want_data.iter().zip(&datas).any(|(w, g)| g.is_some() && g != w) {
+                return Err("after one disturbed read of a data block, the blocks returned differ from what was stored".into());
+            }
+            // ... and every block is returned exactly when asked for again (undisturbed now)
+            dcb.env = Env::default();
+            for i in 0..r.num_data() {
+                match r.read_data(&mut dcb, i) {
+                    Ok(()) if Some(&dcb.buffer) == want_data[i].as_ref() => {}
+                    other => return Err(format!("data block {} read again after a disturbed read: {:?}", i, other.map(|()| dcb.buffer.len()))),
+                }
+            }
         }
         let want_types: Vec<u16> = df.types.iter().map(|t| t.0).collect();
         if want_types != types[..want_types.len()] {
@@ -683,7 +753,8 @@ fn main() {
     run.set("wellformed_files", json!(family.len()));
     let lc = family
         .par_iter()
-        .fold(LocalClasses::new, |mut lc, df| {
+        .enumerate()
+        .fold(LocalClasses::new, |mut lc, (dfi, df)| {
             let built = build(df);
             let bytes = bytes_of(&built);
             let report = |lc: &mut LocalClasses, what: String, r: Result<Result<String, String>, String>, case: &dyn Fn() -> vp_core::serde_json::Value| {
@@ -701,6 +772,28 @@ fn main() {
             // well-formed: exactly what was stored, through both readers
             report(&mut lc, "wellformed".into(), vp_core::catch(|| traverse_raw(&bytes, Some(df))), &|| json!({"df": format!("{:?}", df)}));
             report(&mut lc, "wellformed-file".into(), vp_core::catch(|| traverse_file(&bytes, Some(df))), &|| json!({"df": format!("{:?}", df)}));
+            // the same file from an environment that answers unusually once: a read that returns
+            // fewer bytes than asked for, or fails
+            if dfi % 4 == 0 {
+                let mut envs: Vec<Env> = Vec::new();
+                for call in 0..8 {
+                    envs.push(Env { new_fail: Some(call), ..Env::default() });
+                    envs.push(Env { data_fail: Some(call), ..Env::default() });
+                    for m in [0usize, 1, 3, 4, 7, 8, 12, 16, 35, 36, 37, 64] {
+                        envs.push(Env { new_short: Some((call, m)), ..Env::default() });
+                        envs.push(Env { data_short: Some((call, m)), ..Env::default() });
+                    }
+                }
+                // (every length a post-header read could be cut to)
+                for m in (0..bytes.len()).step_by(1) {
+                    for call in 1..4 {
+                        envs.push(Env { new_short: Some((call, m)), ..Env::default() });
+                    }
+                }
+                for env in envs {
+                    report(&mut lc, "unusual-environment".into(), vp_core::catch(|| traverse_raw_env(&bytes, Some(df), env)), &|| json!({"df": format!("{:?}", df), "environment": format!("{:?}", env)}));
+                }
+            }
             // every meta word x boundary values
             let past = (built.meta.len() * 4 + built.data.len()) as i32;
             for i in 0..built.meta.len() {
